@@ -275,7 +275,8 @@ theorem encodeUrl_shape (e : Env) (s : Str) (u : Url) (h : encodeUrl e s = .ok u
       u.query = (if p.query.isEmpty then p.query else q e Gen.QUERY_REQUOTER p.query) ∧
       u.fragment = (if p.fragment.isEmpty then p.fragment else q e Gen.FRAGMENT_REQUOTER p.fragment) ∧
       (∀ pr, u.pre = some pr → (pr.rawUser = none ∧ pr.rawPassword = none) ∨
-        ∃ np, splitNetloc e.o p.netloc = .ok np ∧ pr.rawUser = requoteOpt e np.user ∧
+        ∃ np, splitNetloc e.o p.netloc = .ok np ∧
+          pr.rawUser = (requoteOpt e np.user).bind (fun s => if s.isEmpty then none else some s) ∧
           pr.rawPassword = requoteOpt e np.password) := by
   unfold encodeUrl at h
   obtain ⟨p, hp, h⟩ := bind_ok h
@@ -302,6 +303,35 @@ theorem encodeUrl_shape (e : Env) (s : Str) (u : Url) (h : encodeUrl e s = .ok u
         simp at hnone
 
 theorem isEmpty_eq_nil {s : Str} (h : s.isEmpty = true) : s = [] := List.isEmpty_iff.mp h
+
+/-- `(x or None)`: the filter `encodeUrl` applies to the requoted user (since commit 2fdb38c) -/
+theorem orNoneBind_some {o : Option Str} {x : Str} :
+    (o.bind (fun s => if s.isEmpty then none else some s)) = some x ↔ o = some x ∧ x ≠ [] := by
+  cases o with
+  | none => simp
+  | some s =>
+    cases s with
+    | nil => simp
+    | cons c r => simp; intro h; subst h; simp
+
+/-- the cached user is never the empty string -/
+theorem orNoneBind_ne_nil {o : Option Str} :
+    (o.bind (fun s => if s.isEmpty then none else some s)) ≠ some [] :=
+  fun h => (orNoneBind_some.mp h).2 rfl
+
+theorem orNoneBind_none {o : Option Str} :
+    (o.bind (fun s => if s.isEmpty then none else some s)) = none ↔ o = none ∨ o = some [] := by
+  cases o with
+  | none => simp
+  | some s => cases s <;> simp
+
+theorem orNoneBind_of_ne {o : Option Str} (h : o ≠ some []) :
+    (o.bind (fun s => if s.isEmpty then none else some s)) = o := by
+  cases o with
+  | none => rfl
+  | some s => cases s with
+    | nil => exact absurd rfl h
+    | cons c r => rfl
 
 /-! ### `parse_qsl` yields Python strings -/
 
